@@ -264,6 +264,11 @@ class SumIfControlConstructionToken(CompositeBaseToken):
         return (self.value[6].cell if self.value[6].cell else self.value[6].range.range[0] if self.value[6].range else
                 self.value[6].matrix.matrix[0] if self.value[6].matrix else None) if len(self.value) == 8 else None
 
+    @property
+    def last_cell_of_needed(self) -> Cell:
+        return (self.value[6].cell if self.value[6].cell else self.value[6].range.range[1] if self.value[6].range else
+                self.value[6].matrix.matrix[1] if self.value[6].matrix else None) if len(self.value) == 8 else None
+
 
 class VlookupControlConstructionToken(CompositeBaseToken):
     _TOKEN_SETS = [
